@@ -330,6 +330,9 @@ func runExplore(t *testing.T, rep *report.R, bound int, scenario func(c *choice.
 		})
 	})
 	rep.AddTransitions(st.ChoicePoints)
+	if n := pause.SelSeen.Swap(0); n > 0 {
+		rep.Count("selects_with_several_ready_cases", n) // each was a choice point (owned selects, DESIGN 9.17)
+	}
 	if st.Capped {
 		rep.Cap(st.CapReason)
 	}
@@ -397,13 +400,13 @@ func publish(f func()) {
 var pz struct {
 	selOn, selUsed bool   // owned selects: a non-default outcome may still be chosen / was chosen
 	selAt          string // "<file>:<line> case k" of that outcome
-	c    *choice.Ctx
-	ch   chan struct{}
-	at   string
-	used bool
-	hits map[string]int
-	cap  int
-	n    int64
+	c              *choice.Ctx
+	ch             chan struct{}
+	at             string
+	used           bool
+	hits           map[string]int
+	cap            int
+	n              int64
 
 	window, windows, step int
 
